@@ -1,1 +1,2 @@
+import Dawgs.Props.C15
 import Dawgs.Props.C16
